@@ -134,6 +134,19 @@ EXTRA2 = {
     "C20": ("R-PROV the looked-up link set is never mutably borrowed before the last copy", "Also decides that the link set copied at a split is intact."),
 }
 
+# clauses added after the third seeded round
+EXTRA3 = {p: ("R-PRED exact formulas of the predicates the property leans on (truth table); shared mechanism clauses run under this property (rules/mechanisms.py)",
+              "Also decides the exact truth tables of the small predicates it leans on and the clauses of the mechanisms it depends on (see DESIGN.md §3).")
+          for p in ("C01", "C02", "C03", "C04", "C05", "C06", "C07", "C08", "C09", "C11", "C12", "C13", "C14", "C15", "C16", "C17", "C18", "C20")}
+EXTRA3["C19"] = ("R-GUARD dispatch on optional attribute arguments (plain variant only under is_null)", "Also decides the NULL-dispatch of the four text wrappers with an attribute argument.")
+for _p, _t in (("C02", "R-PROV cached frontier monotone in Update::integrate; every dependency test unconditional"),
+               ("C06", "R-ANSWER single definition of the sync answers"), ("C07", "R-ANSWER single definition of the event payload"),
+               ("C08", "R-ANSWER single definition of the alt.rs answers; encode_diff dominates every Ok return"),
+               ("C09", "R-PROV dictionary ids of the attributed id-map codec"), ("C13", "R-ANSWER snapshot()"),
+               ("C15", "R-PROV extent of a compacted GC run (value numbering)"), ("C16", "R-GUARD from_store covers GC ranges"),
+               ("C17", "R-GUARD the XML tree walk stays in its subtree")):
+    EXTRA3[_p] = (EXTRA3[_p][0] + "; " + _t, EXTRA3[_p][1])
+
 PENDING = {
 }
 
@@ -142,7 +155,7 @@ def main():
     checks = []
     for pid in sorted(CHECKS):
         tech, text, ref = CHECKS[pid]
-        for ex in (EXTRA, EXTRA2):
+        for ex in (EXTRA, EXTRA2, EXTRA3):
             if pid in ex:
                 tech = tech + "; " + ex[pid][0]
                 text = text + " " + ex[pid][1]
